@@ -28,29 +28,29 @@ def run(ctx):
     rcf = ctx.rule('R-CASFRESH', 'every retry of a compare-exchange re-tests the refreshed expected value against the '
                    'sentinels the first attempt tested', minimum=0)
     for cfg, fb in sorted(fbs.items()):
-        lib_order.check_cas_fresh(ctx, fb, rcf, lambda f: 'BaseCore' in f.qn)
-        lib_shape.check(ctx, fb, rsh, lambda qn: 'SetResultImpl' in qn, 2)
-        lib_core.check_commit(ctx, fb, rcm)
+        ctx.guard(lambda: lib_order.check_cas_fresh(ctx, fb, rcf, lambda f: 'BaseCore' in f.qn))
+        ctx.guard(lambda: lib_shape.check(ctx, fb, rsh, lambda qn: 'SetResultImpl' in qn, 2))
+        ctx.guard(lambda: lib_core.check_commit(ctx, fb, rcm))
         seen = set()
         for f in sorted(fb.fn.values(), key=lambda f: f.full):
             if f.qn == 'yaclib::FutureBase::Ready':
                 k = '%s %s' % (cfg, f.qn)
                 if k not in seen:
                     seen.add(k)
-                    lib_ready.check(ctx, fb, rr, f, 'R-READY ' + f.qn + ' [' + cfg + ']')
+                    ctx.guard(lambda: lib_ready.check(ctx, fb, rr, f, 'R-READY ' + f.qn + ' [' + cfg + ']'))
             elif f.qn == 'yaclib::FutureBase::Get' and 'const' in f.flags and f.ret.endswith('*'):
                 k = '%s %s const&' % (cfg, f.qn)
                 if k not in seen:
                     seen.add(k)
-                    lib_ready.check(ctx, fb, rr, f, 'R-READY ' + f.qn + ' const& [' + cfg + ']', pointer=True)
+                    ctx.guard(lambda: lib_ready.check(ctx, fb, rr, f, 'R-READY ' + f.qn + ' const& [' + cfg + ']', pointer=True))
         if len(seen) < 2:
             ctx.broken('FutureBase::Ready / Get() const& not instantiated in %s' % cfg)
-        lib_order.check(ctx, fb, cfg, [CB], rw, ro, rc)
-        lib_core.check_publish(ctx, fb, rp)
-        lib_core.check_nodiscard(ctx, fb, rn, lambda f: any(facts_rel(f, ctx).startswith(p) for p in FILES))
-        lib_core.check_inline_dispatch(ctx, fb, rd)
-        lib_core.check_dtors(ctx, fb, rt)
-        lib_core.check_connect(ctx, fb, rcn)
+        ctx.guard(lambda: lib_order.check(ctx, fb, cfg, [CB], rw, ro, rc))
+        ctx.guard(lambda: lib_core.check_publish(ctx, fb, rp))
+        ctx.guard(lambda: lib_core.check_nodiscard(ctx, fb, rn, lambda f: any(facts_rel(f, ctx).startswith(p) for p in FILES)))
+        ctx.guard(lambda: lib_core.check_inline_dispatch(ctx, fb, rd))
+        ctx.guard(lambda: lib_core.check_dtors(ctx, fb, rt))
+        ctx.guard(lambda: lib_core.check_connect(ctx, fb, rcn))
 
 
 def facts_rel(f, ctx):
